@@ -163,6 +163,39 @@ class PEval:
                     "removeprefix", "removesuffix")
 
     def _fold_text(self, expr: ast.AST, env: Env) -> Any:
+        if isinstance(expr, ast.JoinedStr):
+            # f"...{x}..." over constant text / numbers (no conversion
+            # flags other than !s / !r, constant format specs)
+            parts = []
+            for v in expr.values:
+                if isinstance(v, ast.Constant) and isinstance(v.value, str):
+                    parts.append(v.value)
+                    continue
+                if not isinstance(v, ast.FormattedValue):
+                    return None
+                a = self.value(v.value, env)
+                if not (isinstance(a, Const) and
+                        isinstance(a.value, (str, int, float)) and
+                        not isinstance(a.value, bool)):
+                    return None
+                spec = ""
+                if v.format_spec is not None:
+                    sp = self._fold_text(v.format_spec, env)
+                    if not isinstance(sp, Const):
+                        return None
+                    spec = sp.value
+                val = a.value
+                if v.conversion == ord("r"):
+                    val = repr(val)
+                elif v.conversion == ord("s"):
+                    val = str(val)
+                elif v.conversion != -1:
+                    return None
+                try:
+                    parts.append(format(val, spec))
+                except (TypeError, ValueError):
+                    return None
+            return Const("".join(parts))
         if isinstance(expr, ast.Call) and isinstance(expr.func, ast.Name) \
                 and expr.func.id in ("all", "any") and len(expr.args) == 1 \
                 and not expr.keywords:
